@@ -133,7 +133,7 @@ def correspondence(ctx: Ctx):
     # ---- generators: return_acs and the mask with the same seed
     from props.c04 import generator_cases
 
-    yield from generator_cases(ctx, ctx.budget(6, 40), acs=True)
+    yield from generator_cases(ctx, ctx.budget(6, 150), acs=True)
 
 
 # --------------------------------------------------------------------------------------------------
@@ -243,7 +243,7 @@ def oracle(ctx: Ctx, deep: bool = False):
                                 f"round({cols}/{acc}) = {target} -> expected {want}",
                                 {"op": "magic-cap", "spec": spec, "expected": want, "observed": got})
     # (2) generators: ACS vs mask with the same arguments
-    per_gen = ctx.budget(12, 80) * (3 if deep else 1)
+    per_gen = ctx.budget(12, 300) * (3 if deep else 1)
     for name in G.GENERATORS:
         modes = G.modes_of(name)
         for k in range(per_gen):
